@@ -198,15 +198,13 @@ def declare_requests(E):
                ghost={"pm_ver": "ghost('pm_ver') + 1"},
                ensures=["self._pos == old(self._pos) + len(result)", COH],
                raises={"OSError": "True", "SSHException": "True", "SFTPError": "True", "Exception": "True"})
-    E.contract("paramiko.file.BufferedFile.flush", returns="none", modifies=[],
+    E.contract("paramiko.file.BufferedFile.flush", returns="none", modifies=[], requires=[], ensures=[COH],
                raises={"OSError": "True", "SSHException": "True", "SFTPError": "True", "Exception": "True"})
     E.contract(F + "_get_size", returns="nat", modifies=[], raises={})
     E.contract(F + "seek", params={"offset": "int", "whence": "int"}, defaults={"whence": "0"},
                requires={"not_before_the_start": "offset >= 0"},
-               ensures={"an_absolute_seek_puts_both_positions_at_the_offset":
-                        "implies(whence == 0, self._pos == offset and self._realpos == offset)",
-                        "read_ahead_is_dropped": "len(self._rbuffer) == 0",
-                        "both_positions_agree": "self._pos == self._realpos"},
+               ensures={"an_absolute_seek_goes_to_the_offset": "implies(whence == 0, self._pos == offset)",
+                        "read_ahead_that_is_kept_is_the_files_content_from_the_new_position": COH},
                modifies=["self._rbuffer", "self._realpos", "self._pos"], returns="none",
                raises={"OSError": "True", "SSHException": "True", "SFTPError": "True", "Exception": "True"})
     # the chunk being served is named through the iterable (a parameter), not through the loop's own variable names
